@@ -247,10 +247,10 @@ fn ds(d: &Desc, all: &[u8], at: usize, h: &mut Vec<HField>) -> Result<Value, Rej
             }
             Value::Scalar(all[at] as u128)
         }
-        Desc::CEnum { tag, count, .. } => {
+        Desc::CEnum { tag, count, discs, .. } => {
             let t = read_uint(&all[at..at + tag], false);
             h.push(HField { at, size: *tag, be: false, kind: HKind::Tag { count: *count }, cur: t });
-            if t >= *count as u128 {
+            if discs.as_ref().map_or(t >= *count as u128, |d| !d.contains(&t)) {
                 return Err(Reject::Content { lo: at, hi: at + tag, tag: true });
             }
             Value::Scalar(t)
